@@ -95,6 +95,7 @@ func (p *c17) RunCase(ctx *runner.Ctx) runner.CaseResult {
 	if ctx.Case == 0 {
 		p.requiredFields(x, ctx)
 		p.nativeParity(x, ctx)
+		p.billingSwitches(x, ctx)
 		return x.r
 	}
 	r := mon.Rng(ctx.Seed, "C17", ctx.Case)
@@ -334,6 +335,41 @@ func (p *c17) nativeParity(x *res, ctx *runner.Ctx) {
 			if outcomeCanon(outs[0]) != outcomeCanon(outs[1]) || outcomeCanon(reads[0]) != outcomeCanon(reads[1]) {
 				x.viol("native-mode-differs", fmt.Sprintf("%s/v1=%s/v2=%s", c.name, outs[0].Class, outs[1].Class), fmt.Sprintf("%s (callbacks registered: %v): SDK v1: %s (%s) | SDK v2: %s (%s); the item afterwards: v1 %s | v2 %s", c.name, registered, outcomeCanon(outs[0]), outs[0].Msg, outcomeCanon(outs[1]), outs[1].Msg, reads[0].Item.Canon(), reads[1].Item.Canon()),
 					map[string]interface{}{"op": c.op, "registered": registered, "v1": outs[0], "v2": outs[1]})
+			}
+		}
+	}
+}
+
+// billingSwitches: UpdateTable requests that name a billing mode (the table's own or the other one) and create an
+// index with or without a ProvisionedThroughput, on tables of either mode, followed by a second index creation
+// without throughput: whatever the library makes of the BillingMode of an UpdateTable, both clients make the same
+// of it - the same answers, the same descriptions, the same fate of the later request.
+func (p *c17) billingSwitches(x *res, ctx *runner.Ctx) {
+	for _, start := range []string{"PAY_PER_REQUEST", "PROVISIONED"} {
+		for _, asked := range []string{"", "PAY_PER_REQUEST", "PROVISIONED"} {
+			for _, noThr := range []bool{true, false} {
+				spec := adapt.TableSpec{Name: "tbl17b", Hash: "h", Billing: start, Throughput: start == "PROVISIONED"}
+				seq := []adapt.Op{createOp(spec),
+					{Kind: adapt.OpUpdateTable, Table: spec.Name, Billing: asked, NoThroughput: noThr, Chg: []adapt.IndexChange{{Create: &adapt.IndexSpec{Name: "first", Hash: "g"}}}},
+					{Kind: adapt.OpDescribe, Table: spec.Name},
+					{Kind: adapt.OpUpdateTable, Table: spec.Name, NoThroughput: true, Chg: []adapt.IndexChange{{Create: &adapt.IndexSpec{Name: "second", Hash: "s"}}}},
+					{Kind: adapt.OpDescribe, Table: spec.Name},
+					{Kind: adapt.OpUpdateTable, Table: spec.Name, Billing: asked},
+					{Kind: adapt.OpPut, Table: spec.Name, Item: val.Item{"h": val.Str("k"), "g": val.Str("x"), "s": val.Str("y")}},
+					{Kind: adapt.OpScan, Table: spec.Name, Index: "first"},
+					{Kind: adapt.OpScan, Table: spec.Name, Index: "second"}}
+				c1, c2 := adapt.New("v1"), adapt.New("v2")
+				for i, op := range seq {
+					o1, o2 := c1.Do(op), c2.Do(op)
+					x.r.Evals += 2
+					x.r.Counters["billing_switch_steps"]++
+					x.fp(true, "billing|%s|%s|%v|%d", start, asked, noThr, i)
+					if outcomeCanon(o1) != outcomeCanon(o2) {
+						x.viol("outcomes-differ", "updatetable-billing/"+op.Kind+"/"+whatDiffers(o1, o2), fmt.Sprintf("table created %s, UpdateTable asking for billing mode %q with an index creation (without throughput: %v): step %d %s: SDK v1: %s (%s) | SDK v2: %s (%s)", start, asked, noThr, i, mon.OpFeature(op), trunc400(outcomeCanon(o1)), o1.Msg, trunc400(outcomeCanon(o2)), o2.Msg),
+							map[string]interface{}{"sequence": seq[:i+1], "v1": o1, "v2": o2})
+						break
+					}
+				}
 			}
 		}
 	}
